@@ -7,7 +7,8 @@ overlay.json:
     interface literal), the import of "sync" becomes the import of the injected package;
   * vfs_linkname*.go: nextRandom() asks the installed scheduler first (deterministic temp names);
   * virtual files: zzverif/vsync/vsync.go (the instrumented RWMutex), vfs/memfs/zz_verif_dump.go,
-    vfs/orefafs/zz_verif_dump.go (lock-free dumps of the node graphs, `//go:build verif`).
+    vfs/orefafs/zz_verif_dump.go, idm/memidm/zz_verif_dump.go (lock-free dumps of the node graphs / the
+    four maps of MemIdm, `//go:build verif`).
 The rewrite FAILS CLOSED: OverlayError when an expected shape is not found or an unexpected use of
 package sync appears in an instrumented package (a lock the scheduler would not see).
 """
@@ -124,6 +125,7 @@ def generate(outdir, repo=None):
     put("zzverif/vsync/vsync.go", "vsync.go", open(os.path.join(INJECT, "vsync", "vsync.go")).read())
     put("vfs/memfs/zz_verif_dump.go", "memfs_dump.go", open(os.path.join(INJECT, "memfs_dump.go.in")).read())
     put("vfs/orefafs/zz_verif_dump.go", "orefafs_dump.go", open(os.path.join(INJECT, "orefafs_dump.go.in")).read())
+    put("idm/memidm/zz_verif_dump.go", "memidm_dump.go", open(os.path.join(INJECT, "memidm_dump.go.in")).read())
     oj = os.path.join(outdir, "overlay.json")
     gen.write_if_changed(oj, json.dumps({"Replace": replace}, indent=1, sort_keys=True))
     return oj
